@@ -58,7 +58,8 @@ Record cfg := {
   g_pub : N;              (* public port *)
   g_bound : N;            (* the port the OS hands out for the local listener *)
   g_pending : bool;       (* the configuration is not available yet when listen() is called *)
-  g_bind_ok : bool        (* the local bind succeeds *)
+  g_bind_ok : bool;       (* the local bind succeeds *)
+  g_two_clients : bool    (* an authenticated service is asked for with two client names instead of one *)
 }.
 
 Inductive lop :=
@@ -70,7 +71,8 @@ Inductive lop :=
 Inductive fkind := FConfig | FNotConfig | FBind | FRejected | FUploads | FDisconnected | FValue | FOther (k : N).
 
 Inductive lres :=
-| LOk (host_ok port_ok wraps : bool)   (* address reports the assigned hostname / the public port; wraps the bound listener *)
+| LOk (host_ok port_ok wraps : bool)   (* address (port.getHost().onion_uri and endpoint.onion_uri) reports a hostname Tor
+                                          assigned to the service / the public port; wraps the bound listener *)
 | LFail (k : fkind).
 
 Inductive lobs :=
@@ -382,6 +384,14 @@ Fixpoint loopback_and_mapping (c : cfg) (nl nc : nat) (bound_ok : bool) (tr : li
   end.
 
 (* ---- input classes of the open findings ---- *)
+(* C17-F4: stealth authentication with several clients: Tor assigns one hostname per client and the
+   address of the port reports none of them *)
+Definition stealth_several_clients (c : cfg) : bool :=
+  match request (g_route c) with
+  | Some q => (match q_auth q with AStealth => true | _ => false end) && g_two_clients c
+  | None => false
+  end.
+
 (* C17-F3: the control connection is lost while waiting for the descriptor upload *)
 Fixpoint disconnect_while_waiting_from (answered : bool) (ops : list lop) : bool :=
   match ops with
